@@ -165,6 +165,13 @@ def gen_table(rng, special=None, force=None):
                 k = "%s_%s" % (tname[:3], ident(rng)) if rng.random() < 0.8 else ident(rng)
                 if k not in keys:
                     keys.append(k)
+            collapsed = set()
+            if special == "shared-entries" and n >= 2:
+                # aapt2 --collapse-resource-names + --deduplicate-entry-values: several ids carry the same key name and, where their values are equal,
+                # the slots of the offset array point at ONE stored entry
+                collapsed = set(rng.sample(range(n), rng.randrange(2, n + 1)))
+                for i in collapsed:
+                    keys[i] = "0_resource_name_obfuscated"
             configs = gen_configs(rng, special)
             layout_of = {}
             chunks = []
@@ -197,6 +204,10 @@ def gen_table(rng, special=None, force=None):
                             kind = "plain"
                         e = R.Entry(keys[i], kind, value=v)
                     e.public = rng.random() < 0.2
+                    if i in collapsed:
+                        first = [entries[j] for j in sorted(collapsed) if j in entries]
+                        if first and rng.random() < 0.8:
+                            e = first[0]  # the same entry: identical bytes, shared by the writer
                     if special == "weak-flag":
                         e.weak = rng.random() < 0.5
                     entries[i] = e
@@ -477,6 +488,20 @@ def check_table(ctx, m, idx):
             three = any(len(x.split("-r")[0]) == 3 or len(x.split("-r")[-1]) == 3 for x in locs if x != "\x00\x00")
             bad("locales-%s" % ("three-letter" if three and sp == "three-letter-locales" else sp), "get_locales differs from the locales of the type chunks", got=sorted(g), want=sorted(locs))
             continue
+        if len(data) % 2 == 0:
+            # lookups with locales the table does not have (whatever they answer) must not change what the table lists afterwards
+            for miss in (lambda: a.get_string(p.name, "no_such_key__", "qq"), lambda: a.get_id(p.name, (p.pid << 24) | 0x10000, "qq-rQQ"),
+                         lambda: a.get_types(p.name, "qx"), lambda: a.get_string_resources(p.name, "qy"), lambda: a.get_public_resources(p.name, "qz"),
+                         lambda: a.get_bool_resources(p.name, "qw"), lambda: a.get_res_id_by_key(p.name, "string", "no_such_key__")):
+                ctx.count("lookups_with_absent_locale")
+                try:
+                    miss()
+                except Exception:
+                    pass
+            g = q("get_locales", lambda: a.get_locales(p.name))
+            if g is not KeyError and sorted(g) != sorted(locs):
+                bad("locales-change-after-lookup-with-absent-locale", "get_locales lists a locale that was only ever asked for", got=sorted(g), want=sorted(locs))
+                continue
         for loc, tn in locs.items():
             g = q("get_types", lambda: a.get_types(p.name, loc))
             if g is not KeyError and set(g) - {"public"} != tn:
@@ -487,7 +512,10 @@ def check_table(ctx, m, idx):
             for c in t.chunks:
                 for i, e in c.entries.items():
                     keys[e.key] = (p.pid << 24) | ((tid0 + 1) << 16) | i
+            dup = Counter(k for k, _ in set((e.key, i) for c in t.chunks for i, e in c.entries.items()))
             for k, rid in list(keys.items())[:20]:
+                if dup[k] > 1:
+                    continue  # collapsed names: the key does not identify one id
                 g = q("get_res_id_by_key", lambda: a.get_res_id_by_key(p.name, t.name, k))
                 if g is not KeyError and g != rid:
                     lay = sorted(set(c.layout for c in t.chunks))
